@@ -167,9 +167,18 @@ def radiotap_option_sizes(db, cache={}):
             for n in facts.fn_nodes(f):
                 if n["k"] == "IfStmt":
                     for (op, l, r) in cond.facts_of(f, n["c"][0] if n["c"][0] is not None else n["c"][1], True):
-                        if op == ">" and r is not None and facts.expr_str(r) == "end_" and \
-                                strip(l)["k"] == "BinaryOperator" and strip(l)["op"] == "+" and \
-                                facts.expr_str(strip(l)["c"][0]) == "current_ptr_" and strip(strip(l)["c"][1]).get("var") == size_var:
+                        if r is None or op not in (">", "<"):
+                            continue
+                        # `current_ptr_ + size > end_`, from either side and through a named local for the sum
+                        big, small = (l, r) if op == ">" else (r, l)
+                        big = facts.strip_all(big)
+                        if big["k"] == "DeclRefExpr":
+                            big = facts.strip_all(facts.inline_locals(f, big, depth=1))
+                        if facts.expr_str(facts.strip_all(small)).replace("this->", "") != "end_" or big["k"] != "BinaryOperator" or big.get("op") != "+":
+                            continue
+                        ops_ = [facts.strip_all(big["c"][0]), facts.strip_all(big["c"][1])]
+                        if any(facts.expr_str(o_).replace("this->", "") == "current_ptr_" for o_ in ops_) and \
+                                any(o_.get("var") == size_var for o_ in ops_):
                             if any(x["k"] == "CXXThrowExpr" for x in facts.walk(n)):
                                 guard = True
                 if n["k"] == "ReturnStmt":
@@ -1559,7 +1568,7 @@ class FnBounds(object):
                             "linear language" % (n, off))
                 return
             if self.can_export_state():
-                goals = [G_ for G_, okk_ in ((off, ok_lo), (need_hi, ok_hi), (n, ok_n)) if not okk_]
+                goals = [self.relax_goal(G_, st) for G_, okk_ in ((off, ok_lo), (need_hi, ok_hi), (n, ok_n)) if not okk_]
                 if all(not G_.mentions(lambda a: a[0] not in ("call", "fld", "p0")) for G_ in goals):
                     for G_ in goals:
                         self.state_requirements.append((G_, text))
@@ -1576,6 +1585,30 @@ class FnBounds(object):
             if not ok_n:
                 why.append("length %s may be negative (unsigned wrap)" % n)
             self.record(node, kind, text, "violation", "; ".join(why))
+
+    def relax_goal(self, G, st):
+        """A goal G >= 0 that mentions a bounded local quantity x (a loop counter with `x <= U` / `x >= L` among the facts)
+        follows from the goal with x replaced by its worst-case bound: that stronger goal mentions only what a caller
+        can know, so it can be handed on.  Returns G itself when nothing can be eliminated."""
+        out = G
+        for a, c in G.t:
+            if a[0] in ("call", "fld", "p0"):
+                continue
+            best = None
+            for F in st.facts:
+                ft = dict(F.t)
+                if len(ft) != 1 or a not in ft:
+                    continue
+                k_ = ft[a]
+                # F = k_*a + F.k >= 0
+                if c < 0 and k_ == -1:          # a <= F.k : worst case for a negative coefficient is the upper bound
+                    best = F.k if best is None else min(best, F.k)
+                if c > 0 and k_ == 1:           # a >= -F.k
+                    best = -F.k if best is None else max(best, -F.k)
+            if best is None:
+                return G
+            out = out.subst(a, const(best))
+        return out
 
     def export_goals(self, node, text, goals):
         """a private helper may leave goals over its parameters, members and container sizes to its callers: they become
@@ -1957,8 +1990,27 @@ class FnBounds(object):
         else:
             pe, ie = n["c"][0], n["c"][1]
             bt = facts.ty(f, pe)
+            pe_ = pe
+            while pe_["k"] in ("ImplicitCastExpr", "ParenExpr") and pe_.get("c"):
+                pe_ = pe_["c"][0]       # the array-to-pointer decay hides the array type
+            if (facts.ty(f, pe_) or {}).get("k") == "arr" and pe_["k"] in ("DeclRefExpr", "MemberExpr"):
+                bt = facts.ty(f, pe_)
             if bt and bt.get("k") == "arr":
-                return    # fixed-size array object: not a buffer cursor
+                # fixed-size array object (`uint16_t words[8]`): not a buffer cursor, but a non-constant index into it has to
+                # stay below its element count
+                nelem = bt.get("n")
+                if nelem and facts.cval(ie) is None:
+                    I = self.lin(ie, st)
+                    text = "%s (array of %d)" % (facts.expr_str(n)[:60], nelem)
+                    if I is None:
+                        return
+                    if self.prove(I, st) and self.prove(const(nelem - 1) - I, st):
+                        self.record(n, "array-index", text, "ok", "index %s within [0, %d)" % (I, nelem))
+                    elif os.environ.get("VERIF_ARRAY_INDEX_STRICT") or self.array_index_decidable(I):
+                        self.record(n, "array-index", text, "violation",
+                                    "cannot show 0 <= %s < %d (element count of the array) from the guards in force: {%s}" %
+                                    (I, nelem, ", ".join("%s>=0" % x for x in sorted(st.facts, key=repr)[:8])))
+                return
             P0, I = self.lin(pe, st), self.lin(ie, st)
             sz = self.elem_size(bt)
             P = (P0 + I.scale(sz)) if (P0 is not None and I is not None) else None
@@ -1970,6 +2022,10 @@ class FnBounds(object):
                             "on a later path the pointer is no longer derived from a tracked buffer (%s)" % P)
             return
         self.oblige(n, "deref", P, const(sz), st, facts.expr_str(n), write)
+
+    def array_index_decidable(self, I):
+        """an index made only of loop counters / locals (phi values and constants): its range is what the loop says"""
+        return not I.mentions(lambda a: a[0] not in ("phi",))
 
     def decl_stream(self, ch, st):
         """InputMemoryStream s(ptr, n) / s(vector)"""
